@@ -106,7 +106,15 @@ def _char_kwargs(det: dict) -> dict:
         "adc_bit_resolution": det.get("adc_bit_resolution"),
         "adc_voltage_range": det.get("adc_voltage_range", [0.0, 10.0]),
     }
-    if det["type"] == "APD":
+    if det["type"] == "APD" and "common_voltage" in det:
+        # the other way to state the bias: two of (avalanche gain, pixel reset voltage, common voltage)
+        kw["roic_gain"] = det.get("roic_gain", 0.8)
+        kw["common_voltage"] = det["common_voltage"]
+        if det.get("avalanche_gain") is not None:
+            kw["avalanche_gain"] = det["avalanche_gain"]
+        if det.get("pixel_reset_voltage") is not None:
+            kw["pixel_reset_voltage"] = det["pixel_reset_voltage"]
+    elif det["type"] == "APD":
         kw["roic_gain"] = det.get("roic_gain", 0.8)
         kw["avalanche_gain"] = det.get("avalanche_gain", 2.0)
         kw["pixel_reset_voltage"] = det.get("pixel_reset_voltage", 5.0)
@@ -137,7 +145,7 @@ def build_detector(det: dict):
         ck["adc_voltage_range"] = tuple(ck["adc_voltage_range"])
     return det_cls(
         geometry=geo_cls(**_geo_kwargs(det)),
-        environment=D.Environment(temperature=det.get("temperature")),
+        environment=D.Environment(temperature=det.get("temperature"), **({"wavelength": det["wavelength"]} if "wavelength" in det else {})),
         characteristics=char_cls(**ck),
     )
 
@@ -224,7 +232,7 @@ def to_yaml_dict(scn: dict, rng=None) -> dict:
     ck = _char_kwargs(det)
     doc[DET_KEY[det["type"]]] = {
         "geometry": _geo_kwargs(det),
-        "environment": {"temperature": det.get("temperature")},
+        "environment": {"temperature": det.get("temperature"), **({"wavelength": det["wavelength"]} if "wavelength" in det else {})},
         "characteristics": ck,
     }
     groups = list(scn["pipeline"].items())
